@@ -10,6 +10,7 @@ import (
 	"google.golang.org/protobuf/proto"
 
 	"github.com/smart-core-os/sc-golang/internal/minibus"
+	"github.com/smart-core-os/sc-golang/internal/verifhook"
 )
 
 // Value represents a simple state field in an object. Think Temperature or Volume or Occupancy. Use a Value to
@@ -77,6 +78,7 @@ func (r *Value) set(value proto.Message, request WriteRequest) (proto.Message, e
 	if err != nil {
 		return nil, err
 	}
+	verifhook.Yield("value.publish")
 
 	ctx, cancel := context.WithTimeout(context.TODO(), time.Second*5)
 	defer cancel()
